@@ -4,6 +4,8 @@ import (
 	"bytes"
 	"encoding/json"
 	"fmt"
+	"os"
+	"path/filepath"
 	"strconv"
 	"strings"
 	"testing"
@@ -26,6 +28,7 @@ func init() {
 		Rule:    "sensitivity: every class of a single-field edit catalogue over certificate.json and profile.json (subject, issuer, serial, unique ids, algorithms, validity from/until/duration with and without from, each manipulation, per extension add/remove/reorder/kind/critical/raw/content per kind, profile validity/extensions/optional/override/subjectAttributes) x seeded base worlds; relevance decided by from-scratch differential execution with identical seed/clock/tz; invariance: clock advance (seconds..30 years), rename config+artifact, alias add/change, profile rename, YAML<->JSON/key order/comments, then Run{-c} must plan nothing and a forced export must write the same hash line; distinct = (op-kind sequence incl. edit class, per-run outcome, final artifact state); non-trivial = a run planned work",
 		Oracle:  func() Oracle { return &c13Oracle{} },
 		Explore: exploreC13,
+		LaneP:   laneP_C13,
 		Exec:    execC13,
 	})
 }
@@ -554,6 +557,21 @@ func exploreC13Invariance(t *testing.T, seed uint64, idx int, tier string, sink 
 	if r.Bool() {
 		tgt.Validity = &ValSpec{From: "2001-03-04", Duration: "40y"}
 	}
+	twoProfiles := r.Chance(1, 6)
+	if twoProfiles {
+		// the shape in which two profiles share an extension kind: make sure the target's profile has
+		// a structured extension in front and the target uses that profile
+		kx := genExt(r, Pick(r, []string{"keyUsage", "extendedKeyUsage", "basicConstraints", "certificatePolicies"}), false)
+		if kx.Raw == "" {
+			prof.Exts = append([]ExtSpec{kx}, prof.Exts...)
+			tgt.Profile = prof.Name
+		}
+	}
+	if tgt.Profile != "" && len(prof.Exts) > 0 && prof.Exts[0].Raw == "" && prof.Exts[0].Kind != "custom" && (twoProfiles || r.Bool()) {
+		// the target restates an extension of its profile word for word (merged into one)
+		px := prof.Exts[0]
+		tgt.Exts = append(tgt.Exts, ExtSpec{Kind: px.Kind, Content: px.Content, Critical: px.Critical})
+	}
 	pl := c13Plan(r, r.U64(), ra, rb, tgt, prof)
 	pl.Meta["arm"] = "invariance"
 	if r.Chance(1, 4) {
@@ -566,7 +584,31 @@ func exploreC13Invariance(t *testing.T, seed uint64, idx int, tier string, sink 
 	cur, curProf := tgt.Clone(), prof.Clone()
 	var sibs []*EntitySpec
 	for i := 0; i < n; i++ {
-		switch r.Intn(10) {
+		pick := r.Intn(11)
+		if twoProfiles && i == 0 {
+			pick = 10
+		}
+		switch pick {
+		case 10: // another entity appears whose *other* profile has an extension of the same kind as one
+			// of the target's profile, with other content, and which restates it - and which is read first
+			if cur.Profile != "" && len(curProf.Exts) > 0 {
+				px := curProf.Exts[0]
+				if px.Raw != "" || px.Kind == "custom" {
+					break
+				}
+				other := genSimpleProfile(r, fmt.Sprintf("twin%d", i))
+				other.File = fmt.Sprintf("a-twin-profile%d", i)
+				ox := genExt(r, px.Kind, false)
+				if ox.Raw != "" || sameJSON(ox.Content, px.Content) {
+					break
+				}
+				other.Exts = []ExtSpec{ox}
+				addOp(Op{K: "put-prof", Prof: other, Label: "add-profile-same-ext-kind"})
+				sib := &EntitySpec{ID: fmt.Sprintf("q%d", i), Name: fmt.Sprintf("aaa-first%d", i), Ext: "yaml", Issuer: "root-a",
+					Subject: genSubject(r, "q"), Profile: other.Name, Exts: []ExtSpec{{Kind: ox.Kind, Content: ox.Content, Critical: ox.Critical}}}
+				addOp(Op{K: "put-ent", Spec: sib, Label: "add-sibling-other-profile"})
+				did = append(did, "add-sibling-other-profile")
+			}
 		case 9: // the later runs are started with another verbosity (-d, -v, neither) than the one that
 			// generated the artifacts
 			addOp(Op{K: "loglevel", Arg: Pick(r, []string{"debug", "info", "none", "debug"}), Label: "log-level-change"})
@@ -663,6 +705,118 @@ func exploreC13Invariance(t *testing.T, seed uint64, idx int, tier string, sink 
 		sink.Cell("invariance:" + d)
 	}
 	sink.Report(w)
+	if len(w.Viol) == 0 && w.Harness == "" && idx%3 == 0 {
+		laneP_C13(t, pl, w, sink)
+	}
+}
+
+// laneP_C13: the invariance scenario with both runs done by the real binary - fresh processes, as
+// real runs are. Lane S executes thousands of worlds in one process; whatever gopki keeps in
+// package-level variables is shared between them there (and between its generating and detecting
+// run), and is not shared between real runs. The binary generates on what lane S's generating run
+// found; its artifacts are put into the directory lane S's detecting run found (at the place each
+// entity's artifact has by then); the binary then runs under -c alone and must plan nothing.
+func laneP_C13(t *testing.T, plan *Plan, w *World, sink *Sink) {
+	if gopkiBin() == "" || plan.Meta["arm"] != "invariance" {
+		return
+	}
+	tz := plan.TZ
+	for _, op := range plan.Ops {
+		if op.K == "tz" {
+			return // a zone change legitimately moves static validities; lane S has decided those worlds
+		}
+	}
+	if strings.HasPrefix(tz, "fixed:") {
+		return
+	}
+	rr, gen := runOf(w, "detect"), runOf(w, "gen")
+	if rr == nil || gen == nil || !rr.OK() || !gen.OK() {
+		return
+	}
+	// the entities that were generated back then, under the aliases they have now
+	old := map[string]bool{}
+	for _, id := range []string{"ra", "rb", "t"} {
+		if e := w.Ents[id]; e != nil {
+			old[e.EffAlias()] = true
+		}
+	}
+	for _, c := range rr.Plan {
+		if old[c.Alias] {
+			return // lane S itself plans one of them: its oracle has decided that world
+		}
+	}
+	// where each entity's artifact was at generation time (renames move it later)
+	genPath := map[string]string{}
+	for _, op := range plan.Ops {
+		if op.K == "run" {
+			break
+		}
+		if op.K == "put-ent" && op.Spec != nil {
+			genPath[op.Spec.ID] = op.Spec.PemPath()
+		}
+	}
+	// 1. the generating run by the binary, on what lane S's generating run found
+	dirA, err := scratchDir()
+	if err != nil {
+		sink.res.Harness = append(sink.res.Harness, err.Error())
+		return
+	}
+	defer removeAll(dirA)
+	if err := materialize(dirA, gen.Before, w.FS.dirs); err != nil {
+		sink.Cell("lane:P:not-materialisable")
+		return
+	}
+	yes, no := "y\n", "n\n"
+	if res, err := runBinary(dirA, Mix(plan.Seed, 6362)-Mix(plan.Seed, 6362)%5, flagArgs(DefaultFlags), &yes, tz); err != nil || res.Exit != 0 {
+		sink.Cell("lane:P:generating-run-failed")
+		return
+	}
+	// 2. the directory in front of the detecting run, with the binary's artifacts in place of lane S's
+	dir, err := scratchDir()
+	if err != nil {
+		sink.res.Harness = append(sink.res.Harness, err.Error())
+		return
+	}
+	defer removeAll(dir)
+	if err := materialize(dir, rr.Before, w.FS.dirs); err != nil {
+		sink.Cell("lane:P:not-materialisable")
+		return
+	}
+	for _, e := range w.Entities() {
+		gp, ok := genPath[e.ID]
+		if !ok {
+			continue
+		}
+		cur, had := rr.Before[e.PemPath()]
+		b, err := os.ReadFile(filepath.Join(dirA, filepath.FromSlash(gp)))
+		if err != nil || !had {
+			continue
+		}
+		dst := filepath.Join(dir, filepath.FromSlash(e.PemPath()))
+		if os.WriteFile(dst, b, 0644) != nil {
+			return
+		}
+		os.Chtimes(dst, cur.Mtime, cur.Mtime)
+	}
+	// 3. the detecting run by the binary: a fresh process, -c alone
+	res, err := runBinary(dir, Mix(plan.Seed, 6363), flagArgs(FlagC), &no, tz)
+	if err != nil {
+		sink.res.Harness = append(sink.res.Harness, "lane P run: "+err.Error())
+		return
+	}
+	sink.Cell("lane:P")
+	for _, d := range invOps(plan) {
+		sink.Cell("lane:P:" + d)
+	}
+	listed := ""
+	for _, ln := range strings.Split(res.Stdout, "\n") {
+		if strings.HasPrefix(ln, "> ") && old[strings.TrimSpace(ln[2:])] {
+			listed += strings.TrimSpace(ln[2:]) + " "
+		}
+	}
+	if listed != "" {
+		sink.LaneViolation(plan, "laneP:unchanged-config-looks-changed", fmt.Sprintf("after %s the binary, run under -c alone on artifacts the binary itself generated before those operations, says: %s", invOps(plan), tailStr(res.Stdout, 600)))
+	}
 }
 
 // invOps lists the invariance operations still present in a (possibly minimised) plan.
